@@ -762,6 +762,16 @@ func (e *Env) evalCall(n *spec.Call) (SV, error) {
 			return SV{T: Gt(SObj(v.T), e.old.Alloc)}, nil
 		}
 		return SV{}, fmt.Errorf("fresh() of %s", v.T.Sort)
+	case "str":
+		// string(b) for a byte slice b, as the program's conversion computes it in this state
+		v, err := arg(0)
+		if err != nil {
+			return SV{}, err
+		}
+		if v.T.Sort != SSlice {
+			return SV{}, fmt.Errorf("str() of %s", v.T.Sort)
+		}
+		return SV{T: vc.strOf(e.state(), v.T), Ty: types.Typ[types.String]}, nil
 	case "wf":
 		// the type invariant of a value (allocated-or-nil references, ranges, 0 <= len <= cap)
 		v, err := arg(0)
